@@ -45,6 +45,9 @@ P2(t) == \A u \in U(t) :
 P3(t) == (t.cend = "fin" /\ NoReset(t)) => \A u \in U(t) : t.ups[u].drained => t.ups[u].sawEOF
 \* P4: when every upstream has finished sending, the client observes end of stream
 P4(t) == (NoReset(t) /\ t.cend = "fin" /\ t.cdrained) => t.ceof
+\* P3b / P4b: ... WHILE THE OPPOSITE DIRECTION KEEPS FLOWING: the side that waits for the other's end of stream
+\* before it sends anything (orders client_first / upstream_first) gets it although its own direction is still open
+P34b(t) == (NoReset(t) /\ t.err = "") => t.waitedEOF # "timeout"
 \* P5: then the handler returns and every upstream connection it opened is closed
 \* P0: the handler returns no error other than a failed dial (anything else would make the clauses below vacuous)
 P0(t) == t.err = "" \/ t.dialErr
@@ -62,5 +65,6 @@ ProxyViolations(t) ==
   \cup (IF P2(t) THEN {} ELSE {"P2 the client did not receive an upstream's bytes in order / completely"})
   \cup (IF P3(t) THEN {} ELSE {"P3 the client's end of stream did not reach every upstream"})
   \cup (IF P4(t) THEN {} ELSE {"P4 the upstreams' end of stream did not reach the client"})
+  \cup (IF P34b(t) THEN {} ELSE {"P3b/P4b one side's end of stream did not reach the other side while the opposite direction was still open"})
   \cup (IF P5(t) THEN {} ELSE {"P5 the handler did not return, or left an upstream connection open"})
 =============================================================================
